@@ -258,8 +258,10 @@ class Parser:
             self.take('op', ')')
             return r
         if k == 'op' and t in '+-':
+            # a sign directly after another operator (2*-X**2, an extension every Fortran compiler NM-TRAN uses
+            # accepts): it applies to the whole power, like a leading sign
             self.take()
-            r = self.primary()
+            r = self.factor()
             return -r if t == '-' else r
         if k == 'id':
             self.take()
